@@ -323,6 +323,16 @@ class _FoldLen(ast.NodeTransformer):
         return n
 
     def visit_Call(self, n: ast.Call) -> ast.AST:
+        if any(k.arg is None and isinstance(k.value, ast.Dict) and all(isinstance(x, ast.Constant) and isinstance(x.value, str) for x in k.value.keys) for k in n.keywords):
+            # `f(**{'a': x})`  ->  `f(a=x)`  (a keyword-argument dict built beforehand)
+            kws: T.List[ast.keyword] = []
+            for k in n.keywords:
+                if k.arg is None and isinstance(k.value, ast.Dict) and all(isinstance(x, ast.Constant) and isinstance(x.value, str) for x in k.value.keys):
+                    kws.extend(ast.keyword(arg=x.value, value=v) for x, v in zip(k.value.keys, k.value.values))      # type: ignore[union-attr]
+                else:
+                    kws.append(k)
+            if len({k.arg for k in kws if k.arg is not None}) == len([k for k in kws if k.arg is not None]):
+                n = ast.copy_location(ast.Call(func=n.func, args=n.args, keywords=kws), n)
         if isinstance(n.func, ast.IfExp):
             # A3  a callable selected first: `(f if c else g)(x)`  ->  `f(x) if c else g(x)`
             f = n.func
@@ -496,6 +506,7 @@ class Normaliser:
     def __init__(self, calls: T.Iterable[str] = (), budget: int = 6000, module: T.Optional[ast.Module] = None):
         self.module = module
         self.locals: T.Set[str] = set()
+        self._builders: T.Dict[str, bool] = {}
         self.fn: T.Optional[FuncNode] = None
         self.callees: T.Dict[str, T.List[FuncNode]] = {}
         self._summary: T.Dict[int, T.Optional[T.Set[str]]] = {}
@@ -747,6 +758,73 @@ class Normaliser:
         alts = pat.value.split('|')
         return (subject, alts) if all(alts) else None
 
+    def dict_builder(self, name: str) -> bool:
+        """A local that is only ever: bound to a dict display, grown by `name.update(k=v, ..)` / `name.update({..})` /
+        `name['k'] = v` statements, and splatted (`f(**name)`) or copied (`dict(name)`): its content at a use is the
+        display accumulated along the path (no aliasing is possible)."""
+        if name in self._builders:
+            return self._builders[name]
+        fn, ok = self.fn, True
+        if fn is None:
+            return False
+        parents: T.Dict[int, ast.AST] = {}
+        for n in ast.walk(fn):
+            for ch in ast.iter_child_nodes(n):
+                parents[id(ch)] = n
+        for n in ast.walk(fn):
+            if not (isinstance(n, ast.Name) and n.id == name):
+                continue
+            par = parents.get(id(n))
+            if isinstance(n.ctx, ast.Store):
+                ok = ok and isinstance(par, (ast.Assign, ast.AnnAssign)) and isinstance(getattr(par, 'value', None), ast.Dict) \
+                    and (par.targets == [n] if isinstance(par, ast.Assign) else par.target is n)
+            elif isinstance(n.ctx, ast.Del):
+                ok = False
+            else:
+                gp = parents.get(id(par)) if par is not None else None
+                upd = isinstance(par, ast.Attribute) and par.attr == 'update' and isinstance(gp, ast.Call) and gp.func is par and isinstance(parents.get(id(gp)), ast.Expr)
+                sub = isinstance(par, ast.Subscript) and par.value is n and isinstance(par.ctx, ast.Store)
+                splat = isinstance(par, ast.keyword) and par.arg is None
+                cp = isinstance(par, ast.Call) and isinstance(par.func, ast.Name) and par.func.id == 'dict' and par.args == [n]
+                ok = ok and (upd or sub or splat or cp)
+        self._builders[name] = ok
+        return ok
+
+    def grow(self, s: ast.stmt, st: _State) -> bool:
+        """`d.update(k=v)` / `d.update({'k': v})` / `d['k'] = v` on a dict-builder local whose display is known: fold into it."""
+        name: T.Optional[str] = None
+        items: T.List[T.Tuple[ast.AST, ast.AST]] = []
+        if isinstance(s, ast.Expr) and isinstance(s.value, ast.Call) and isinstance(s.value.func, ast.Attribute) and s.value.func.attr == 'update' \
+                and isinstance(s.value.func.value, ast.Name):
+            c = s.value
+            name = c.func.value.id          # type: ignore[attr-defined]
+            if any(k.arg is None for k in c.keywords) or len(c.args) > 1:
+                return False
+            if c.args:
+                if not (isinstance(c.args[0], ast.Dict) and all(k is not None for k in c.args[0].keys)):
+                    return False
+                items += list(zip(c.args[0].keys, c.args[0].values))      # type: ignore[arg-type]
+            items += [(ast.Constant(value=k.arg), k.value) for k in c.keywords]
+        elif isinstance(s, ast.Assign) and len(s.targets) == 1 and isinstance(s.targets[0], ast.Subscript) and isinstance(s.targets[0].value, ast.Name):
+            name = s.targets[0].value.id
+            items = [(s.targets[0].slice, s.value)]
+        if name is None or name not in st.env or not isinstance(st.env[name], ast.Dict) or not self.dict_builder(name):
+            return False
+        d = copy.deepcopy(st.env[name])
+        for k, v in items:
+            k2, v2 = self.expr(k, st), self.expr(v, st)
+            if not isinstance(k2, ast.Constant) or not self.substitutable(v2):
+                return False
+            for i, old in enumerate(d.keys):            # type: ignore[attr-defined]
+                if isinstance(old, ast.Constant) and old.value == k2.value:
+                    d.values[i] = v2                    # type: ignore[attr-defined]
+                    break
+            else:
+                d.keys.append(k2)                       # type: ignore[attr-defined]
+                d.values.append(v2)                     # type: ignore[attr-defined]
+        st.env[name] = d
+        return True
+
     def local_table(self, name: str) -> T.Optional[ast.AST]:
         """A local bound exactly once to a tuple/list/dict display and only ever read (iterated, indexed, `.get`/`.items`,
         membership): a constant table that happens to live inside the function."""
@@ -863,6 +941,18 @@ class Normaliser:
         return new
 
     def simple(self, s: ast.stmt, st: _State) -> T.List[ast.stmt]:
+        if self.grow(s, st):
+            return []
+        if isinstance(s, (ast.Assign, ast.AnnAssign)) and isinstance(getattr(s, 'value', None), ast.Dict):
+            tg0 = s.targets if isinstance(s, ast.Assign) else [s.target]
+            if len(tg0) == 1 and isinstance(tg0[0], ast.Name) and tg0[0].id not in self.nodrop and self.dict_builder(tg0[0].id) \
+                    and all(k is not None for k in s.value.keys):
+                d0 = self.expr(s.value, st)
+                if all(isinstance(k, ast.Constant) for k in d0.keys) and all(self.substitutable(v) for v in d0.values):
+                    st.stale.pop(tg0[0].id, None)
+                    st.env[tg0[0].id] = d0
+                    self.dropped.add(tg0[0].id)
+                    return []
         if isinstance(s, (ast.Assign, ast.AnnAssign)):
             if isinstance(s, ast.AnnAssign):
                 if s.value is None:
